@@ -6,6 +6,9 @@
 From EG Require Import Base.Prelude Base.Casts Gen.ColorConsts Gen.ColorTable Model.Colormodel Model.Rawdata Model.Imageraw Model.Geometry.
 From EG Require Import Gen.SrcColor Gen.SrcRaw Gen.SrcImage.
 Set Default Timeout 60.
+(* the generated definitions that cast to usize (`as usize`, `usize::try_from`) take the width of usize as Casts.UsizeW; the model
+   of this property works with 64-bit usize (exact integers in range): taken at that width *)
+#[local] Existing Instance Casts.usize64_w.
 
 Lemma src_convert_channel_eq from_max to_max value :
   0 <= from_max <= 255 -> 0 <= to_max <= 255 -> 0 <= value <= 255 ->
